@@ -127,6 +127,7 @@ type cfg struct {
 	revOpts  bool   // the options are handed to the constructor in reverse order
 	both     string // with pkce: "cookie+pkce" | "pkce+cookie": WithCookieHandler and WithPKCE both given (one handler), in that order
 	// related-keys parts (relkeys_test.go): the cookie handler's keys as configured, the related foreign key pairs
+	hist bool // part rphist (hist_test.go): the provider also serves userinfo, end_session, revocation, device_authorization
 	rel           bool
 	hashK, blockK []byte
 	fks           []fk
@@ -416,14 +417,33 @@ func (pr *provider) RoundTrip(req *http.Request) (*http.Response, error) {
 	form, _ := url.ParseQuery(string(body))
 	u := req.URL.Scheme + "://" + req.URL.Host + req.URL.Path
 	pr.log = append(pr.log, preq{URL: u, Form: form, Auth: req.Header.Get("Authorization")})
+	if pr.p.hist {
+		switch u {
+		case userinfoURL:
+			return jsonResp(req, 200, map[string]any{"sub": "user-1", "email": "u1@example.com"}), nil
+		case endSessionURL:
+			resp := jsonResp(req, 302, map[string]any{})
+			resp.Header.Set("Location", "https://rp.example/logged-out?state="+url.QueryEscape(form.Get("state")))
+			return resp, nil
+		case revokeURL:
+			return jsonResp(req, 200, map[string]any{}), nil
+		case deviceURL:
+			return jsonResp(req, 200, map[string]any{"device_code": "device-code-1", "user_code": "ABCD-EFGH",
+				"verification_uri": issuer + "/device", "expires_in": 300, "interval": 1}), nil
+		}
+	}
 	switch u {
 	case discoURL:
-		return jsonResp(req, 200, map[string]any{
+		d := map[string]any{
 			"issuer": issuer, "authorization_endpoint": authURL, "token_endpoint": tokenURL,
 			"jwks_uri": jwksURL, "userinfo_endpoint": issuer + "/userinfo",
 			"response_types_supported": []string{"code"}, "subject_types_supported": []string{"public"},
 			"id_token_signing_alg_values_supported": []string{"ES256"},
-		}), nil
+		}
+		if pr.p.hist {
+			d["end_session_endpoint"], d["revocation_endpoint"], d["device_authorization_endpoint"] = endSessionURL, revokeURL, deviceURL
+		}
+		return jsonResp(req, 200, d), nil
 	case jwksURL:
 		return jsonResp(req, 200, jose.JSONWebKeySet{Keys: []jose.JSONWebKey{
 			{Key: keys.Get("p256b").PubForJose(), KeyID: opKid, Algorithm: "ES256", Use: "sig"}}}), nil
@@ -1373,6 +1393,11 @@ func TestCheck(t *testing.T) {
 	)
 	if (only == "" || only == "ident") && (replayPart == "" || replayPart == "ident") {
 		identPart(c)
+	}
+	// other exported operations of package rp interleaved with logins on one long-lived RP (E1, hist_test.go)
+	c.Assume("part rphist: what the other operations (ClientCredentials, RefreshTokens, Userinfo, EndSession, RevokeToken, device flow, CodeExchange outside the handler, GenerateAndStoreCodeChallenge, VerifyTokens, getters) answer is not judged, only the logins after them and the URL rp.AuthURL returns; the application hands those operations scope lists of its own (copies), never the RP's slice; a pkce cookie GenerateAndStoreCodeChallenge sets goes to another response, not into this browser's jar")
+	if (only == "" || only == "rphist") && (replayPart == "" || replayPart == "rphist") {
+		histPart(c)
 	}
 	// overlapping requests of several browsers on the one shared RP (E3 schedule exploration, conc_test.go)
 	c.Assume("part conc: requests are interleaved at the hooked operations (state function, URLParamOpt callbacks, ResponseWriter methods, the HTTP client's RoundTrip, the application callback); handler code between two hooks runs atomically; all orders of hooked operations up to the stated preemption bound are explored")
